@@ -344,7 +344,30 @@ def _open(ip, args, kw, fr):
 
 @builtin(sorted)
 def _sorted(ip, args, kw, fr):
-    return ip.sorted_call(args, kw, fr)
+    """sorted(xs, key=..., reverse=...): a fresh list that is a permutation of xs (trusted).  The
+    order itself is not modelled (no obligation here depends on it)."""
+    src = args[0]
+    segs = ip._segments(src)
+    if len(segs) != 1 or segs[0][0] != 'heap':
+        raise Unsupported('sorted() of something that is not one heap list')
+    sg = segs[0]
+    st = ip.st
+    lst = ip.new_list([], T=sg[2])
+    r = lst.e
+    arr = st.fresh('sorted', ElArr)
+    n = sg[4]
+    st.set_arr('L_el', z3.Store(st.L_el, r, arr), r)
+    st.set_arr('L_len', z3.Store(st.L_len, r, n), r)
+    st.fresh_n += 1
+    pi = z3.Function(f'perm!{st.fresh_n}', I, I)
+    rho = z3.Function(f'perminv!{st.fresh_n}', I, I)
+    j = z3.Int('j!so')
+    st.fact(z3.ForAll([j], z3.Implies(z3.And(0 <= j, j < n), z3.And(0 <= pi(j), pi(j) < n, arr[j] == sg[3][pi(j)],
+                                                                  rho(pi(j)) == j)), patterns=[arr[j]]))
+    st.fact(z3.ForAll([j], z3.Implies(z3.And(0 <= j, j < n), z3.And(0 <= rho(j), rho(j) < n, arr[rho(j)] == sg[3][j],
+                                                                  pi(rho(j)) == j)), patterns=[sg[3][j]]))
+    st.notes.append('sorted(): trusted as "returns a permutation of its argument"; the order is not modelled')
+    return lst
 
 
 # ------------------------------------------------------------------------------------------ methods
@@ -630,6 +653,13 @@ def dict_method(ip: Interp, obj: SV, name: str, args, kw) -> SV:
     if name == 'get':
         ks = ip.key_str(args[0], 'get')
         default = args[1] if len(args) > 1 else NONE
+        log = getattr(ip, 'dict_log', None)
+        if log is not None and any(racc.eq(r) for racc, _ in log):
+            # reading the dict that the enclosing loop is building: membership is not the pre-loop one
+            ip.shared.setdefault('dict_acc_read', set()).add(r.get_id())
+            if ip.decide(st.fresh('acchas', B)):
+                return ip.dict_get(r, ks, obj.T)
+            return default
         if ip.decide(st.D_has[r][ks]):
             return ip.dict_get(r, ks, obj.T)
         return default
